@@ -72,6 +72,67 @@ func regularSuite(maxN, maxRate, step int) hlib.Suite {
 	}}
 }
 
+// hugeSuite: rates around 10^8 .. 10^15 per cycle. Findings at or above beyondRate
+// carry their own key (see known_findings.txt), anything below it is keyed like
+// the ordinary sweep.
+// beyondRate: from here on one float64 rounding error per addition, relative 2^-53
+// of a value up to the rate, accumulated over a cycle can exceed the 1e-7 the
+// code rounds up by (rate x 2^-52 >= 1e-7).
+const beyondRate = 1e-7 * (1 << 52) // about 4.5 x 10^8 iterations per cycle
+
+func hugeSuite() hlib.Suite {
+	return hlib.Suite{Name: "regular/rates-10^8..10^15/one-cycle", Run: func(r *hlib.Rec) {
+		now := time.Unix(0, 0)
+		for _, n := range []int{2, 3, 6, 7, 9, 10, 11, 13, 600} {
+			for _, base := range []int{1e8, 1e9, 1e10, 1e11, 1e12, 1e13, 1e15} {
+				if !r.Mine() {
+					continue
+				}
+				for d := 0; d < 200; d++ {
+					rate := base + d
+					r.Eval()
+					_, f, err := api.NewDistribution(api.RegularDistribution, time.Duration(n)*100*time.Millisecond, func(time.Time) int { return rate }, nil)
+					input := fmt.Sprintf("regular interval=%s rate=%d", time.Duration(n)*100*time.Millisecond, rate)
+					r.SampleCase(input)
+					if err != nil {
+						r.Fail("C12/regular-interval", "wrong", err.Error(), input)
+						continue
+					}
+					sum := 0
+					for i := 0; i < n; i++ {
+						v := f(now)
+						if v < 0 {
+							r.Fail("C12/regular-negative", "negative", fmt.Sprintf("value %d", v), input)
+						}
+						sum += v
+					}
+					beyond := float64(rate) >= beyondRate
+					r.Distinct(fmt.Sprintf("n=%d beyond=%v exact=%v", n, beyond, sum == rate))
+					if sum == rate {
+						continue
+					}
+					msg := fmt.Sprintf("one cycle of %d sub-ticks sums to %d, the rate function returned %d", n, sum, rate)
+					if !beyond {
+						r.Fail("C12/regular-sum", cmp(sum, rate), msg, input)
+					} else if rate-sum == 1 {
+						r.Fail("C12/regular-sum-beyond-float64-precision", "lost-one-per-cycle", msg, input)
+					} else {
+						r.Fail("C12/regular-sum-beyond-float64-precision", fmt.Sprintf("%s-%d", cmp(sum, rate), abs(rate-sum)), msg, input)
+					}
+				}
+			}
+		}
+		r.Sample("rates 10^k + 0..199 for k in 8..13,15; N in {2,3,6,7,9,10,11,13,600}")
+	}}
+}
+
+func abs(x int) int {
+	if x < 0 {
+		return -x
+	}
+	return x
+}
+
 func class(rate, n int) int {
 	switch {
 	case rate == 0:
@@ -279,9 +340,9 @@ func passSuite() hlib.Suite {
 
 func suites(tier string) []hlib.Suite {
 	if tier == "quick" {
-		return []hlib.Suite{regularSuite(100, 300, 1), regularSuite(30, 1_000_000, 331), varyingSuite(), randomSuite(4), passSuite(), longRunSuite(40_000_000)}
+		return []hlib.Suite{regularSuite(100, 300, 1), regularSuite(30, 1_000_000, 331), hugeSuite(), varyingSuite(), randomSuite(4), passSuite(), longRunSuite(40_000_000)}
 	}
-	return []hlib.Suite{regularSuite(1000, 1500, 1), regularSuite(60, 20000, 7), regularSuite(12, 2_000_000, 997), varyingSuite(), randomSuite(5), passSuite(), longRunSuite(400_000_000)}
+	return []hlib.Suite{regularSuite(1000, 1500, 1), regularSuite(60, 20000, 7), regularSuite(12, 2_000_000, 997), regularSuite(12, 450_000_000, 99991), regularSuite(1000, 450_000_000, 9_999_991), hugeSuite(), varyingSuite(), randomSuite(5), passSuite(), longRunSuite(400_000_000)}
 }
 
 func main() { hlib.EnumMain("C12", suites) }
